@@ -17,6 +17,16 @@ MODEL_NOTE = ("models M1 (lean/HqModel/Core: reactor, task queues, mapping after
 PARTIAL = ("the theorems are step-level (all states, all inputs of one step) or job-layer-global; the invariant over whole cluster histories "
            "is evaluated by harness monitors on every explored real trace and is not a theorem yet (DESIGN.md 6.1 stage B)")
 
+def exhaust(view, tags, clauses, qd=3, td=6):
+    """bounded exhaustive exploration: EVERY sequence of enabled world actions (schedule, deliver each pending message,
+    end each running task ok/failed, lose a worker, cancel, add a worker) up to depth qd / td from three small fixed
+    scenarios (dependencies + max_fails; prefill backlog on two workers; multi-node), each executed on the real code"""
+    drv = {"job": "hqm-job", "core": "hqm-core"}[view]
+    extra = ["!panic"] + (["!bad-choice"] if view == "core" else [])
+    return {"component": view, "driver": drv, "name": view + "_exhaust", "tags": tags + extra, "clauses": clauses,
+            "quick": {"cases": 1, "shards": 16, "extra": ["--exhaust", str(qd)]},
+            "thorough": {"cases": 1, "shards": 16, "extra": ["--exhaust", str(td)]}}
+
 def journal(clauses, q=8, t=40):
     """restart clause of a sim property: generated and real (kind sim) journals restored at every prefix by the real StateRestorer"""
     return {"component": "journal", "driver": "hqm-journal", "tags": ["res", "sub", "adj", "core", "prod"], "clauses": clauses,
@@ -75,7 +85,9 @@ PROPS = {
                  [job(["ev", "resp", "tasks", "job", "live"], ["c08."]), core(["msg", "t", "w", "q", "rd", "cb"], ["c08.", "core.hyp"])]),
     "C09": entry("C09", ["c09_open_close_no_panic", "c09_forget_no_panic", "c09_cancel_no_panic"],
                  [job(["ev", "resp", "ret", "core", "job", "tasks", "live"], ["c09."]),
-                  core(["msg", "cb", "flag", "t", "w", "q", "rd"], ["c09."])],
+                  core(["msg", "cb", "flag", "t", "w", "q", "rd"], ["c09."]),
+                  exhaust("core", ["msg", "cb", "flag", "t", "w", "q", "rd"], ["c09."]),
+                  exhaust("job", ["ev", "resp", "ret", "core", "job", "tasks", "live"], ["c09."])],
                  ["a panic inside an unmodelled dependency (tokio, HiGHS, bincode) is outside the claim"]),
     "C14": entry("C14", ["c14_decision", "c14_abort_all"],
                  [job(["ret", "ev", "tasks", "job"], ["c14."]), core(["msg", "cb", "t"], ["c14."])]),
